@@ -16,6 +16,7 @@ DEVIATIONS = [
     "int-as-long", "float-native", "float-string-lexical", "bool-typed", "bool-typed-01", "bool-json-in-$",
     "lang-with-type", "time-Z", "prefix-in-bundle-too", "prefix-bundle-only", "reverse-keys", "anon-ids-named",
     "default-ns", "members-in-one-record-array", "typed-literal-number-$", "str-typed-number-$", "float-typed-int-$",
+    "empty-containers",
 ]
 
 
@@ -252,6 +253,13 @@ def write(doc, prefixes, dialect=(), default=None, indent=None):
     res.update(out)
     if bmap:
         res["bundle"] = bmap
+    if sites.on("empty-containers"):
+        # every record kind (and the prefix block) present although empty, at document and bundle level
+        for c in [res] + list(bmap.values()):
+            c.setdefault("prefix", OrderedDict())
+            for k in KINDS:
+                c.setdefault(k, OrderedDict())
+        res.setdefault("bundle", OrderedDict())
     if sites.on("reverse-keys"):
         res = OrderedDict(reversed(list(res.items())))
     return json.dumps(res, indent=indent, ensure_ascii=False)
@@ -276,4 +284,5 @@ def write_with(doc, prefixes, sites, default=None):
     sites.on("prefix-in-bundle-too")
     for buri, recs in bundles:
         container(recs, Namer(namer.prefixes, namer.default), sites, anon)
+    sites.on("empty-containers")
     sites.on("reverse-keys")
